@@ -32,11 +32,18 @@ def judge_obs(case: dict, obs) -> core.CaseResult:
 
 
 def plan(tier: str) -> list[dict]:
-    return list(dagprop.std_plan(tier, controlled=(10, 150, 2500), serial=(1, 40, 800), fork=(0, 0, 0), spawn=(0, 0, 0),
-                            gated_fork=(4, 12, 400), gated_spawn=(1, 3, 60))) + dagprop.exhaustive_jobs(tier, 4)
+    q = tier == 'quick'
+    jobs = list(dagprop.std_plan(tier, controlled=(8, 150, 2500), serial=(1, 40, 800), fork=(0, 0, 0), spawn=(0, 0, 0),
+                                 gated_fork=(4, 12, 400), gated_spawn=(1, 3, 60))) + dagprop.exhaustive_jobs(tier, 4)
+    jobs += [{'engine': 'executor-machine', 'n': 12 if q else 400, 'steps': 14 if q else 30, 'hashseed': i} for i in range(2)]
+    return jobs
 
 
 def run_job(rec: core.Recorder, job: dict, seed: int) -> None:
+    if job['engine'] == 'executor-machine':
+        from pbt import execmachine
+        execmachine.run_machines(rec, 'executor-machine', 'C05:', job['n'], job['steps'], seed)
+        return
     if job['engine'] == 'exhaustive-small':
         dagprop.run_exhaustive_job(rec, job, judge_obs, failing=False, cached=False)
         return
